@@ -6,6 +6,7 @@ build profile: `dbg = true` checked, `dbg = false` release; lemmas: Ymq/Lemmas/S
 after `Sieve.sieveBlock`), `hitSum hits x` the total added at position `x`, `byteAt blk x` the byte.
 -/
 import Ymq.Lemmas.SieveLogCover
+import Ymq.Lemmas.SieveTableExact
 import Ymq.Props.C13
 
 namespace Ymq.C13
@@ -372,5 +373,22 @@ theorem smooth_candidate_reported (dbg : Bool) (fb : FB) (hfb : fb.WF) (r1 r2 : 
   obtain ⟨f, hf⟩ := z2 x hxr
   obtain ⟨lost, hl, hcpl⟩ := listed_complete fb hfb r1 r2 hr offset nblocks hN recycled hrec s0 h0 b hb s1 h1 s h2
   exact ⟨hxr, f, hf, lost, hl, fun pidx p o hp hroot hmod => hcpl x hx f (z1 (x, f) hf) pidx p o hp hroot hmod⟩
+
+/-- `table_bucket_exact` — the table-level half of "the bucket entries read back are exactly the registered hits":
+starting from a table whose bucket `b` is empty (`Table.new`, or any table after `reset`), after any sequence of
+`add(offset, pidx)` during which NO overflow was counted, the visible part of bucket `b` — what `sieve_block` reads
+back and accumulates — is exactly the list of the adds with `offset / 256 = b`, in order and with multiplicity,
+each as `(offset % 256, pidx % 256)`. (Strengthens `table_recovery`, which is about membership only.)
+Still open for the general `accumulator_spec`: carrying this through the loops of `Sieve::new` / `rehash` (which
+adds are made for which prime) and the same statement for `SieveTableLarge`. -/
+theorem table_bucket_exact (t0 t : Table) (hwf : t0.WF) (adds : List (Nat × Nat))
+    (h : adds.foldlM (fun t a => t.add a.1 a.2) t0 = some t) (hov : t.nOverflows = t0.nOverflows)
+    (b : Nat) (hb : t0.bucket b = some []) :
+    t.bucket b = some ((adds.filter fun a => a.1 / 256 = b).map fun a => (a.1 % 256, a.2 % 256)) := by
+  simpa using Table.foldl_bucket_exact adds t0 t hwf h hov b [] hb
+
+/-- non-vacuity: three adds into two buckets of a fresh table. -/
+example : ((([(5, 7), (300, 9), (6, 263)] : List (Nat × Nat)).foldlM (fun (t : Table) a => t.add a.1 a.2) (Table.new 1)).bind
+    fun t => t.bucket 0) = some [(5, 7), (6, 7)] := by decide +kernel
 
 end Ymq.C13
